@@ -66,6 +66,8 @@ func chunkedReader(x *X, name string, data []byte, chunk int) *SimReader {
 	if chunk > 0 {
 		r.Chunks = []int{chunk}
 	}
+	// half of the streams hand over their last bytes together with io.EOF
+	r.EOFWithData = x != nil && x.P != nil && (x.P.Run+int64(len(data)))%2 == 0
 	return r
 }
 
